@@ -78,6 +78,7 @@ package tex
 //@ func JsNanoTime.UnmarshalJSON
 //@   requires token(b) && i != nil && ErrInvalidInt64Js != nil
 //@   ensures #exact result == nil ==> quoted(b) && isint(inner(b)) && spec_unixnano(time.Time(deref(i))) == int64(ival(inner(b)))
+//@   ensures #accepts quoted(b) && len(b) > 2 && isint(inner(b)) ==> result == nil
 //@   modifies JsNanoTime.wall, JsNanoTime.ext, JsNanoTime.loc
 //
 //@ func Duration.UnmarshalJSON
@@ -111,6 +112,80 @@ package tex
 //@   requires ErrInvalidDuration != nil
 //@   ensures #roundtrip result1 == nil && result0 == v
 //@   modifies region($alloc)
+//
+// ---- JsNanoTime encoder (the nanosecond reading of a time value is a function of the value: package-local assumed contract) ----
+//@ func extern time.Time.UnixNano(t)
+//@   ensures result == spec_unixnano(t)
+//@   modifies
+//@ func JsNanoTime.MarshalJSON
+//@   ensures #quoted result1 == nil && quoted(result0) && len(result0) > 2
+//@   ensures #numeral isint(inner(result0)) && ival(inner(result0)) == int(spec_unixnano(time.Time(i)))
+//@   modifies region($alloc)
+//@   use strext(inner(result0), fmti64(spec_unixnano(time.Time(i)), 10))
+//@ func verifRoundTripJsNanoTime
+//@   opt int2bv-inverse
+//@   requires ErrInvalidInt64Js != nil
+//@   ensures #roundtrip result1 == nil && spec_unixnano(time.Time(result0)) == spec_unixnano(time.Time(v))
+//@   modifies region($alloc), JsNanoTime.wall, JsNanoTime.ext, JsNanoTime.loc
+//
+// ---- hex / base-32 integer strings: formatter and parser use the same base and width ----
+//@ func I64Hex
+//@   ensures isi64(result, 16) && i64val(result, 16) == i
+//@   modifies
+//@ func U64Hex
+//@   ensures isuint(result, 16) && uval(result, 16) == u
+//@   modifies
+//@ func I64HexV2
+//@   ensures isi64(result, 32) && i64val(result, 32) == i
+//@   modifies
+//@ func U64HexV2
+//@   ensures isuint(result, 32) && uval(result, 32) == u
+//@   modifies
+//@ func HexI64
+//@   ensures (result1 == nil <==> isi64(s, 16)) && (result1 == nil ==> result0 == i64val(s, 16))
+//@   modifies
+//@ func HexU64
+//@   ensures (result1 == nil <==> isuint(s, 16)) && (result1 == nil ==> result0 == uval(s, 16))
+//@   modifies
+//@ func HexI64V2
+//@   ensures (result1 == nil <==> isi64(s, 32)) && (result1 == nil ==> result0 == i64val(s, 32))
+//@   modifies
+//@ func HexU64V2
+//@   ensures (result1 == nil <==> isuint(s, 32)) && (result1 == nil ==> result0 == uval(s, 32))
+//@   modifies
+//@ func verifRoundTripHex
+//@   ensures #roundtrip result0 == i && result1 == u && result2 == i && result3 == u && result4
+//@   modifies
+//
+// ---- SQL Scan/Value pairs ----
+//@ func UnixNano2Time.Value
+//@   ensures #value result1 == nil && tag(result0) == tagof(int64) && int64(result0) == spec_unixnano(time.Time(s))
+//@   modifies
+//@ func UnixNano2Time.Scan
+//@   requires s != nil
+//@   ensures #ok result == nil
+//@   ensures #i64 tag(value) == tagof(int64) ==> spec_unixnano(time.Time(deref(s))) == int64(value)
+//@   ensures #i32 tag(value) == tagof(int32) ==> spec_unixnano(time.Time(deref(s))) == int64(int32(value))
+//@   ensures #u32 tag(value) == tagof(uint32) ==> spec_unixnano(time.Time(deref(s))) == int64(uint32(value))
+//@   ensures #int tag(value) == tagof(int) ==> spec_unixnano(time.Time(deref(s))) == int64(int(value))
+//@   modifies UnixNano2Time.wall, UnixNano2Time.ext, UnixNano2Time.loc
+//@ func Unix2Time.Value
+//@   ensures #value result1 == nil && tag(result0) == tagof(int64) && int64(result0) == spec_unix(time.Time(s))
+//@   modifies
+//@ func Unix2Time.Scan
+//@   requires s != nil
+//@   ensures #ok result == nil
+//@   ensures #i64 tag(value) == tagof(int64) ==> spec_unix(time.Time(deref(s))) == int64(value)
+//@   ensures #i32 tag(value) == tagof(int32) ==> spec_unix(time.Time(deref(s))) == int64(int32(value))
+//@   ensures #u32 tag(value) == tagof(uint32) ==> spec_unix(time.Time(deref(s))) == int64(uint32(value))
+//@   ensures #int tag(value) == tagof(int) ==> spec_unix(time.Time(deref(s))) == int64(int(value))
+//@   modifies Unix2Time.wall, Unix2Time.ext, Unix2Time.loc
+//@ func verifRoundTripUnixNano2Time
+//@   ensures #roundtrip result1 == nil && spec_unixnano(time.Time(result0)) == spec_unixnano(time.Time(v))
+//@   modifies region($alloc), UnixNano2Time.wall, UnixNano2Time.ext, UnixNano2Time.loc
+//@ func verifRoundTripUnix2Time
+//@   ensures #roundtrip result1 == nil && spec_unix(time.Time(result0)) == spec_unix(time.Time(v))
+//@   modifies region($alloc), Unix2Time.wall, Unix2Time.ext, Unix2Time.loc
 //
 //@ func JsByte.FromString
 //@   requires i != nil && ErrInvalidByteJs != nil
